@@ -39,6 +39,11 @@ const char* KEY_EMPTYSRC = "C18|ebpps|merge-k|empty-argument-with-smaller-k";
 // item although the fractions add up to ~0 (ebpps_sample_impl.hpp:147-155): data_ holds one item more than c_
 const char* KEY_TINY = "C18|ebpps|sample-size|insertion-of-an-item-whose-share-of-c-is-below-the-rounding-error-of-c";
 
+// internal_merge inserts each full item of the lighter input with probability new_rho * avg_wt; when that product rounds to
+// 1 + eps, replace_content stores the item as a PARTIAL item with c_ = 1 + eps, and ebpps_sample::merge then adds 1 + eps to c_
+// but at most a partial item to the data: data_ holds fewer than floor(c_) items; a later subsample() indexes past the end (SEGV)
+const char* KEY_OVER1 = "C18|ebpps|sample-size|merge-where-rho-times-average-weight-of-the-lighter-input-rounds-above-1";
+
 const int NS = 4;  // slots
 
 // ---------------------------------------------------------------- item types
@@ -119,6 +124,7 @@ struct Model {
   // shapes of the known findings
   bool stale = false;      // a merge happened whose lighter input held the larger maximum, and no later weight >= max
   bool emptydst = false;   // the last op was a merge of a non-empty sketch with larger k into this EMPTY sketch
+  bool over1 = false;      // some merge inserted a full item with probability 1 + eps
   bool tiny = false;       // some inserted item's share of c was below 1e-9 (absorbed by rounding when added to c)
   // coverage facts
   bool sampled = false, merged_nonempty = false, upd_after_merge = false;
@@ -186,7 +192,10 @@ void check_items(const Slot<T>& s, const V& items, const char* how) {
   double c = s.sk.get_c();
   size_t sz = items.size();
   bool size_ok = static_cast<double>(sz) == std::floor(c) || static_cast<double>(sz) == std::ceil(c);
-  if (m.tiny) {
+  if (m.over1) {
+    VF_CHECK_K(size_ok, "sample-size-after-merge-probability-above-1", KEY_OVER1, how << " returned " << sz << " items, c = " << c << " (n " << m.n << ", k " << m.k
+               << "; an earlier merge inserted a full item with probability rho * avg_wt = 1 + eps)");
+  } else if (m.tiny) {
     VF_CHECK_K(size_ok, "sample-size-after-tiny-insertion", KEY_TINY, how << " returned " << sz << " items, c = " << c << " (n " << m.n << ", k " << m.k
                << "; an earlier insertion had a share of c below 1e-9)");
   } else {
@@ -225,6 +234,13 @@ void check_sample(const Slot<T>& s, Flags& f, int draws) {
   if (s.m.all_equal && s.m.n && s.m.n <= s.m.k) f.kept_checked = true;
 }
 
+// serde<arithmetic>::serialize calls memcpy(ptr, items, 0) with items == nullptr when a copied / deserialized sample holds no full
+// item (0 < c < 1, only reachable through rounding, e.g. a single item of weight 49: (1/49)*49 < 1). UBSan's nonnull check
+// aborts the process on that; it has no bearing on C18 (and no observable effect), so such sketches are not serialized here.
+// Reported as a side note, see the C18 report.
+template <typename T>
+bool ser_ok(const ebpps_sketch<T>& sk) { return !(std::is_arithmetic<T>::value && sk.get_c() > 0.0 && sk.get_c() < 1.0); }
+
 template <typename T>
 std::vector<uint8_t> image_of(const ebpps_sketch<T>& sk) {
   auto b = sk.serialize();
@@ -255,12 +271,27 @@ void do_merge(Slot<T>& dst, Slot<T>& src, bool rvalue, uint32_t newk, Flags& f) 
     double lc = (swap ? dst.sk : src.sk).get_c(), lfrac = lc - std::floor(lc);
     if ((lfrac > 0 && lfrac < 1e-9) || std::min(a.k, b.k) * (light.W / (a.W + b.W)) / std::max(1.0, lc) < 1e-9) a.tiny = true;
     a.tiny = a.tiny || b.tiny;
+    // shape of KEY_OVER1, classified with the public getters only: rho * (W / c of the lighter input) > 1 at some insertion step
+    {
+      const ebpps_sketch<T>& L = swap ? dst.sk : src.sk;
+      const ebpps_sketch<T>& H = swap ? src.sk : dst.sk;
+      double avg = L.get_cumulative_weight() / L.get_c(), wm = std::max(a.wmax, b.wmax), kk = std::min(a.k, b.k), cum = H.get_cumulative_weight();
+      bool over = false;
+      for (double i = 0; i < std::floor(L.get_c()) && !over; ++i) { cum += avg; if (std::min(1.0 / wm, kk / cum) * avg > 1.0) over = true; }
+      if (over) {
+        // the merge itself can already index past the end of the sample (SEGV inside subsample); with the finding listed as open
+        // the case is excluded before the call, otherwise the merge runs and the checks (or the sanitizer) report it
+        if (vf::known_keys().count(KEY_OVER1)) throw vf::KnownSkip(KEY_OVER1);
+        a.over1 = true;
+      }
+      a.over1 = a.over1 || b.over1;
+    }
     a.merged_nonempty = true;
     a.emptydst = false;   // the first insertion step rescales the whole sample
     vf::label(swap ? "merge:heavier-into-lighter" : "merge:lighter-into-heavier");
   } else if (!src_empty && dst_empty) {
     a.stale = b.stale;
-    a.tiny = b.tiny;
+    a.tiny = b.tiny; a.over1 = b.over1;
     a.emptydst = b.k > a.k;
     a.merged_nonempty = b.merged_nonempty; a.upd_after_merge = b.upd_after_merge;
     vf::label("merge:into-empty");
@@ -270,7 +301,8 @@ void do_merge(Slot<T>& dst, Slot<T>& src, bool rvalue, uint32_t newk, Flags& f) 
   bool emptysrc_smaller_k = src_empty && b.k < a.k;
   if (b.k < a.k) vf::label("merge:k-lowered");
   std::vector<uint8_t> before;
-  if (!rvalue) before = image_of(src.sk);
+  bool cmp_image = !rvalue && ser_ok(src.sk);
+  if (cmp_image) before = image_of(src.sk);
   if (rvalue) dst.sk.merge(std::move(src.sk)); else dst.sk.merge(src.sk);
   // model
   if (!src_empty) {
@@ -297,7 +329,7 @@ void do_merge(Slot<T>& dst, Slot<T>& src, bool rvalue, uint32_t newk, Flags& f) 
   a.k = mk;
   if (a.n > a.k) a.sampled = true;
   if (!rvalue) {
-    VF_CHECK(image_of(src.sk) == before, "merge-argument-unchanged", "lvalue merge modified its const argument");
+    if (cmp_image) VF_CHECK(image_of(src.sk) == before, "merge-argument-unchanged", "lvalue merge modified its const argument");
     vf::label("merge:lvalue");
   } else {
     src = Slot<T>(newk);
@@ -308,6 +340,7 @@ void do_merge(Slot<T>& dst, Slot<T>& src, bool rvalue, uint32_t newk, Flags& f) 
 template <typename T>
 void do_roundtrip(Slot<T>& s, int mode, Flags& f) {
   const auto& sk = s.sk;
+  if (!ser_ok(sk)) { vf::label("roundtrip-skipped:c<1"); return; }
   unsigned hdr = mode == 1 ? 1 + static_cast<unsigned>(s.m.n % 23) : 0;
   auto bytes = sk.serialize(hdr);
   VF_CHECK(bytes.size() == hdr + sk.get_serialized_size_bytes(), "serialized-size", "serialize(" << hdr << ") gives " << bytes.size() << " bytes, get_serialized_size_bytes " << sk.get_serialized_size_bytes());
@@ -336,7 +369,26 @@ void prop_main_t(const Case& cs) {
   uint64_t next_id = 1;
   for (auto& s : sl) { check_basic(s, f, "construction"); check_sample(s, f, 1); }
   int nmerge = 0, nser = 0;
+  auto fill = [&](Slot<T>& s, uint64_t n, int pattern, uint64_t seed, const char* what) {
+    for (uint64_t i = 0; i < n; ++i) {
+      double w = pattern_weight(pattern, i, n, seed, f.arbitrary);
+      if (w == 0.0) vf::label("zero-weight-ignored");
+      do_update(s, next_id++, w, i & 1);
+      check_basic(s, f, what);
+      if (n <= 40 || i % 97 == 0) check_sample(s, f, 1);
+    }
+  };
+  // initial content of the four sketches (so that most merges join two non-empty sketches)
+  for (int i = 0; i < NS; ++i) {
+    uint64_t n = static_cast<uint64_t>(std::max<int64_t>(0, cs.get("fill" + std::to_string(i), 0))) % 500;
+    fill(sl[i], n, static_cast<int>(static_cast<uint64_t>(cs.get("fpat" + std::to_string(i), 0)) % NPATTERNS), static_cast<uint64_t>(cs.get("seed", 1)) + 1000 * i, "initial update");
+  }
+  const bool trace = getenv("C18_TRACE") != nullptr;   // debugging aid for replays: prints every sketch before each op
   for (const Op& op : cs.ops) {
+    if (trace) {
+      std::cerr << "---- before op " << op.name; for (auto v : op.a) std::cerr << ' ' << v; std::cerr << "\n";
+      for (int i = 0; i < NS; ++i) { std::cerr.precision(17); std::cerr << "slot " << i << " c=" << sl[i].sk.get_c() << " model: k=" << sl[i].m.k << " n=" << sl[i].m.n << " W=" << sl[i].m.W << " wmax=" << sl[i].m.wmax << "\n" << sl[i].sk.to_string() << sl[i].sk.items_to_string(); }
+    }
     Slot<T>& s = sl[op.uarg(0) % NS];
     if (op.name == "upd") {
       double w = single_weight(op.uarg(1) % 4096, f.arbitrary);
@@ -346,13 +398,7 @@ void prop_main_t(const Case& cs) {
       uint64_t n = op.uarg(1) % 3000;
       int pattern = static_cast<int>(op.uarg(2) % NPATTERNS);
       uint64_t seed = op.uarg(3);
-      for (uint64_t i = 0; i < n; ++i) {
-        double w = pattern_weight(pattern, i, n, seed, f.arbitrary);
-        if (w == 0.0) vf::label("zero-weight-ignored");
-        do_update(s, next_id++, w, i & 1);
-        check_basic(s, f, "bulk update");
-        if (n <= 40 || i % 97 == 0) check_sample(s, f, 1);
-      }
+      fill(s, n, pattern, seed, "bulk update");
       vf::label(std::string("pattern:") + std::to_string(pattern));
     } else if (op.name == "bad") {
       static const double bad[] = {-1.0, -1e-300, std::numeric_limits<double>::quiet_NaN(), std::numeric_limits<double>::infinity(),
@@ -372,8 +418,11 @@ void prop_main_t(const Case& cs) {
     } else if (op.name == "merge") {
       size_t di = op.uarg(0) % NS, si = op.uarg(1) % NS;
       if (si == di) si = (di + 1) % NS;   // self-merge is outside the quantifier
-      do_merge(sl[di], sl[si], op.uarg(2) & 1, k_from(op.arg(3, 8)), f);
+      bool rvalue = op.uarg(2) & 1;
+      do_merge(sl[di], sl[si], rvalue, k_from(op.arg(3, 8)), f);
       nmerge++;
+      // the moved-from argument was replaced by a fresh sketch: give it new content
+      if (rvalue) fill(sl[si], op.uarg(4) % 200, static_cast<int>(op.uarg(5) % NPATTERNS), op.uarg(4) * 31 + op.uarg(5), "refill update");
       check_basic(sl[di], f, "merge"); check_basic(sl[si], f, "merge (argument)");
       check_sample(sl[si], f, 1);
     } else if (op.name == "ser") {
@@ -383,7 +432,7 @@ void prop_main_t(const Case& cs) {
     } else if (op.name == "copy") {
       switch (op.uarg(1) % 3) {
         case 0: { ebpps_sketch<T> cp(s.sk); s.sk = std::move(cp); break; }
-        case 1: { ebpps_sketch<T> cp(1); cp = s.sk; VF_CHECK(image_of(cp) == image_of(s.sk), "copy-equal", "copy-assigned sketch differs"); s.sk = cp; break; }
+        case 1: { ebpps_sketch<T> cp(1); cp = s.sk; if (ser_ok(cp)) VF_CHECK(image_of(cp) == image_of(s.sk), "copy-equal", "copy-assigned sketch differs"); s.sk = cp; break; }
         default: { ebpps_sketch<T> mv(std::move(s.sk)); s.sk = std::move(mv); }
       }
       vf::label("copy/move");
@@ -436,9 +485,8 @@ struct InclRun {
   double c = 0;
 };
 
-InclRun incl_once(const Case& cs, uint64_t rep, bool first) {
+InclRun incl_once(const Case& cs, uint64_t rep, bool first, Flags& f) {
   using T = uint64_t;
-  Flags f;
   const int N3 = 3;
   std::vector<Slot<T>> sl;
   for (int i = 0; i < N3; ++i) sl.emplace_back(static_cast<uint32_t>(std::min<int64_t>(8, std::max<int64_t>(1, cs.get("k" + std::to_string(i), 2)))));
@@ -466,7 +514,9 @@ InclRun incl_once(const Case& cs, uint64_t rep, bool first) {
     } else continue;
     if (first) check_basic(s, f, op.name.c_str());
   }
-  Slot<T>& t = sl[static_cast<size_t>(cs.get("target", 0)) % N3];
+  size_t ti = static_cast<size_t>(cs.get("target", 0)) % N3;   // observed sketch: the preferred one unless it is empty, then the fullest
+  if (sl[ti].m.n == 0) for (size_t i = 0; i < N3; ++i) if (sl[i].m.n > sl[ti].m.n) ti = i;
+  Slot<T>& t = sl[ti];
   if (first) { check_basic(t, f, "script"); check_sample(t, f, 1); }
   out.m = t.m;
   out.c = t.sk.get_c();
@@ -482,9 +532,10 @@ void prop_incl(const Case& cs) {
   std::map<uint64_t, uint64_t> hits;
   double size_sum = 0;
   InclRun first;
+  Flags f;
   for (uint64_t r = 0; r < R; ++r) {
     vf::own_randomness(vf::mix64(seed * 0x9e3779b97f4a7c15ull + r));
-    InclRun run = incl_once(cs, r, r == 0);
+    InclRun run = incl_once(cs, r, r == 0, f);
     if (r == 0) first = run;
     for (uint64_t id : run.sample) hits[id]++;
     size_sum += static_cast<double>(run.sample.size());
@@ -519,6 +570,10 @@ rc::Gen<int64_t> k_gen() {
   return rc::gen::weightedOneOf<int64_t>({{6, vf::range(1, 8)}, {4, vf::range(9, 50)}, {1, vf::range(51, 2000)}});
 }
 
+rc::Gen<int64_t> fill_gen() {
+  return rc::gen::weightedOneOf<int64_t>({{2, vf::range(0, 0)}, {5, vf::range(1, 12)}, {3, vf::range(13, 120)}});
+}
+
 rc::Gen<Case> gen_main() {
   using namespace vf;
   auto slot = range(0, NS - 1);
@@ -526,7 +581,11 @@ rc::Gen<Case> gen_main() {
       {7, op2("upd", slot, rc::gen::weightedOneOf<int64_t>({{5, range(0, 15)}, {2, range(16, 4095)}}))},
       {3, op4("bulk", slot, rc::gen::withSize([](int s) { return range(0, 6 + 3 * s); }), range(0, NPATTERNS - 1), range(0, 1 << 20))},
       {2, op4("bulk", slot, range(0, 12), range(0, NPATTERNS - 1), range(0, 1 << 20))},
-      {5, op4("merge", slot, slot, range(0, 1), k_gen())},
+      {5, rc::gen::exec([=]() {
+         Op op{"merge", {}};
+         op.a = {*slot, *slot, *range(0, 1), *k_gen(), *rc::gen::weightedOneOf<int64_t>({{1, range(0, 0)}, {4, range(1, 12)}, {2, range(13, 80)}}), *range(0, NPATTERNS - 1)};
+         return op;
+       })},
       {1, op2("ser", slot, range(0, 2))},
       {1, rc::gen::map(rc::gen::tuple(slot, range(0, 99)), [](std::tuple<int64_t, int64_t> t) {
          int64_t s = std::get<0>(t), x = std::get<1>(t);
@@ -539,8 +598,10 @@ rc::Gen<Case> gen_main() {
   return make_case({{"type", range(0, 2)},
                     {"wmode", rc::gen::weightedOneOf<int64_t>({{3, rc::gen::just<int64_t>(0)}, {1, rc::gen::just<int64_t>(1)}})},
                     {"seed", range(1, 1 << 30)},
-                    {"k0", k_gen()}, {"k1", k_gen()}, {"k2", k_gen()}, {"k3", k_gen()}},
-                   oplist(opg, 4, 0.36));
+                    {"k0", k_gen()}, {"k1", k_gen()}, {"k2", k_gen()}, {"k3", k_gen()},
+                    {"fill0", fill_gen()}, {"fill1", fill_gen()}, {"fill2", fill_gen()}, {"fill3", fill_gen()},
+                    {"fpat0", range(0, NPATTERNS - 1)}, {"fpat1", range(0, NPATTERNS - 1)}, {"fpat2", range(0, NPATTERNS - 1)}, {"fpat3", range(0, NPATTERNS - 1)}},
+                   oplist(opg, 4, 0.3));
 }
 
 rc::Gen<Case> gen_incl() {
